@@ -609,8 +609,8 @@ func Run(dir string, seed uint64, n int, tier string) error {
 	}
 	al := newAllocRunner()
 	// corpus: the depth-2 witness through the real allocate action (one queue, three
-	// identical one-GPU jobs of priority 75 / 60 / 50, room for all). Which job a
-	// finite queue drops depends on Go's map iteration order in InitializeWithJobs.
+	// identical one-GPU jobs of priority 75 / 60 / 50, room for all). The bounded
+	// queue must keep the two best whatever order InitializeWithJobs visits Go's map in.
 	wc := cluster{Nodes: []int{8}, Depts: []int{1001}, Queues: []alQueue{{ID: 1, Dept: 1001, Deserved: 8, Limit: -1, Weight: 1}},
 		Templates: []template{{Tasks: 1, GPUs: 1, CPUs: 500}},
 		Jobs:      []alJob{{UID: 1, Queue: 1, Prio: 75}, {UID: 2, Queue: 1, Prio: 60}, {UID: 3, Queue: 1, Prio: 50}}}
@@ -637,7 +637,7 @@ func Run(dir string, seed uint64, n int, tier string) error {
 	if al.reporter.failed > 0 {
 		out.Stats["gomock_reports"] = al.reporter.failed
 	}
-	out.Stats["rule"] = "one splitmix64 stream; after a fixed corpus (ties, elastic states, depth 0/1/2 witnesses): 40% PriorityQueue programs (push/pop/Fix(i)/re-prioritise-top+Fix(0), 4-36 ops then drained), 45% JobsOrderByQueues programs (2-6 leaf queues on 1-3 levels, 3-24 initial pushes, then pops / pushes / re-pushes with progress, then drained), 15% real allocate runs (1-4 nodes, 2-6 leaf queues in 1-2 departments, 4-28 pending jobs from 2-3 templates, deserved quotas and limits); every 4th queue program and every 5th allocate run uses a finite depth (label prefix finite-depth); non-trivial = PQ: >=3 pushes and >=2 pops; JO: jobs in >=2 queues and >=4 pushes; allocate: >=1 comparable pair (same leaf queue and shape) with at least one job placed and one not"
+	out.Stats["rule"] = "one splitmix64 stream; after a fixed corpus (ties, elastic states, depth 0/1/2 witnesses): 40% PriorityQueue programs (push/pop/Fix(i)/re-prioritise-top+Fix(0), 4-36 ops then drained), 45% JobsOrderByQueues programs (2-6 leaf queues on 1-3 levels, 3-24 initial pushes, then pops / pushes / re-pushes with progress, then drained), 15% real allocate runs (1-4 nodes, 2-6 leaf queues in 1-2 departments, 4-28 pending jobs from 2-3 templates, deserved quotas and limits); every 4th queue program and every 5th allocate run uses a finite depth (label prefix finite-depth; checked like all others); non-trivial = PQ: >=3 pushes and >=2 pops; JO: jobs in >=2 queues and >=4 pushes; allocate: >=1 comparable pair (same leaf queue and shape) with at least one job placed and one not"
 	return out.Flush()
 }
 
@@ -669,7 +669,8 @@ func corpus(out *u.Out) {
 		push(j(4, 50, 3)), push(j(5, 50, 4, [2]int{2, 2}, [2]int{0, 1})), push(j(6, 50, 5, [2]int{2, 2}, [2]int{3, 1})), pop, pop, pop, pop, pop, pop})
 	fixed(-1, "no-subgroups", []pqOp{push(jobSpec{UID: 1, Queue: 1, Prio: 50, CTime: 1}), push(j(2, 50, 0, [2]int{1, 1})), push(j(3, 50, 2)), pop, pop, pop})
 	fixed(-1, "reprio", []pqOp{push(j(1, 100, 0)), push(j(2, 75, 0)), push(j(3, 50, 0)), {Kind: "reprio", Prio: 40}, pop, {Kind: "reprio", Prio: 125}, pop, pop, pop})
-	// finite depth: the witness of C16_finite_depth_refuted (priority 3, 1, 2 -> here 100, 50, 75)
+	// finite depth: the witness of C16_finite_depth_v0_refuted (priority 3, 1, 2 -> here 100, 50, 75);
+	// before commit 4521da5 the depth-2 queue popped [u1,u3]
 	witness := []pqOp{push(j(1, 100, 0)), push(j(3, 50, 0)), push(j(2, 75, 0)), pop, pop, pop}
 	fixed(2, "witness-100-50-75", witness)
 	fixed(-1, "witness-100-50-75", witness)
